@@ -487,6 +487,22 @@ func ruleR17f(h *H) {
 			}
 			good = true
 		}
+		// (ii') the options value ReadTerm returned, used directly from a local
+		if !good {
+			src := ir.Canon(base)
+			if al, isAl := src.(*ssa.Alloc); isAl {
+				if sts := ir.AllStores(al); len(sts) == 1 {
+					src = ir.Canon(sts[0].Val)
+				}
+			}
+			if ex, isEx := src.(*ssa.Extract); isEx {
+				if call, isCall := ex.Tuple.(*ssa.Call); isCall && h.P.Matches(call.Common(), dbReadTerm) && call.Parent() == s.Fn {
+					if sd, _, _ := ir.SuccessDominated(call, s.Call); sd {
+						good = true
+					}
+				}
+			}
+		}
 		// (ii) ReadTerm result stored into the same options field in this function
 		if !good {
 			for _, rt := range h.P.CallsIn(s.Fn, dbReadTerm) {
